@@ -1966,6 +1966,12 @@ class Engine:
                 raise Unsupported('for over symbolic collection without loop contract (%s #%s)' % (qual, k))
             r = it.cut(self, node, env, spec, qual, k)
             return r
+        from . import aio as _aio
+        if isinstance(it, _aio.QueueView):
+            ss = it.q.attrs['_sym']
+            it = M.SymSeq(ss['arr'], ss['h'], ss['t'], ss['name'])
+        if isinstance(it, M.SymSeq):
+            return self._search_loop(node, env, it)
         if isinstance(it, range):
             items = it           # lazily: a long counted loop that leaves early (return / break) is fine without a contract
         else:
@@ -1986,6 +1992,47 @@ class Engine:
         self.exec_block(node.orelse, env)
 
     s_AsyncFor = s_For
+
+    def _search_loop(self, node, env, seq):
+        """`for x in <sequence of symbolic length>: if <test on x>: <... return / break / raise>` - the linear-search idiom,
+        summarised exactly: either there is a FIRST element satisfying the test (the body runs for it and leaves the loop), or
+        no element does (the loop falls through).  The test is evaluated once on a generic element and must not branch on it."""
+        M = self.models
+        from . import aio as _aio
+        body = node.body
+        ok = (len(body) == 1 and isinstance(body[0], ast.If) and not body[0].orelse and body[0].body
+              and isinstance(body[0].body[-1], (ast.Return, ast.Break, ast.Raise)) and not node.orelse)
+        if not ok:
+            raise Unsupported('for-loop over a sequence of symbolic length (%s) that is not a plain search loop' % seq.name)
+
+        def elem(j):
+            return seq.elem(self, j) if seq.elem is not None else _aio.registry(self).obj_of(z3.Select(seq.arr, j), '%s[j]' % seq.name)
+
+        def test_on(j):
+            cenv = Env(env.module, env.func, env)
+            self.assign(node.target, elem(j), cenv)
+            depth = len(self.path.sig)
+            t = self.truth(self.eval(body[0].test, cenv))
+            if len(self.path.sig) != depth:
+                raise Unsupported('the test of a search loop over a symbolic sequence branches on the element')
+            return B(t)
+        j = z3.Int(self.path.fresh_name('seq.j'))
+        self.path.ghost.setdefault('seq_bounds', {})[str(j)] = (seq.lo, seq.hi)
+        Tj = test_on(j)
+        if self.path.choice(2, 'search-loop-finds-an-element') == 1:
+            w = z3.Int(self.path.fresh_name('seq.first'))
+            self.path.ghost['seq_bounds'][str(w)] = (seq.lo, seq.hi)
+            self.assume(z3.And(w >= seq.lo, w < seq.hi))
+            self.assume(z3.substitute(Tj, (j, w)))
+            self.assume(z3.ForAll([j], z3.Implies(z3.And(j >= seq.lo, j < w), z3.Not(Tj))))
+            self.assign(node.target, elem(w), env)
+            try:
+                self.exec_block(body[0].body, env)
+            except BreakSig:
+                return
+            raise Unsupported('search loop body did not leave the loop')
+        self.assume(z3.ForAll([j], z3.Implies(z3.And(j >= seq.lo, j < seq.hi), z3.Not(Tj))))
+        return
 
     def s_Break(self, node, env):
         raise BreakSig()
